@@ -224,13 +224,16 @@ def recipe_for_hint(hint, depth=0, dates=True, objects=True):
     if h is str or issubclass(h, str):
         return text_values
     if issubclass(h, datetime.datetime) or issubclass(h, datetime.date):
-        if not dates:
+        if not dates or (dates == "date" and issubclass(h, datetime.datetime)):
             raise Unsupported(h)
         pool = [d for d in DATES if ("T" in d) == issubclass(h, datetime.datetime)]
         return st.sampled_from(pool)
     if _is_model(h):
         return model_recipe(h, depth + 1, dates, objects)
     raise Unsupported(h)
+
+
+EXTRAS = [True]  # module switch: generate undeclared extra fields for Extra.allow models
 
 
 def model_recipe(cls, depth=0, dates=True, objects=True, required_only=False):
@@ -287,7 +290,7 @@ def model_recipe(cls, depth=0, dates=True, objects=True, required_only=False):
         base = base.map(fix_person)
     if name == "Organization" and "id_" in vnames:
         base = base.map(lambda d: dict(d, **({"@id": "https://ror.org/02nv7yv05"} if "@id" in d else {})))
-    if getattr(cls.__config__, "extra", None) is Extra.allow and depth <= 1:
+    if EXTRAS[0] and getattr(cls.__config__, "extra", None) is Extra.allow and depth <= 1:
         return st.builds(lambda d, e: dict(d, **e), base,
                          st.one_of(st.just({}), st.just({}), st.fixed_dictionaries({"xExtra": json_any})))
     return base
